@@ -139,6 +139,12 @@ def oracle(case, R):
     nontriv_redo = nontriv_addon = False
     pending_addon = False
     nops = 0
+    def hand(fv):
+        """the force vector of a send in the caller's container (int array / list / read-only ...)"""
+        obj, _lab = util.repack(fv, case.get("fpack", "same"))
+        return obj
+
+    R.label("force:" + case.get("fpack", "same"))
     for op in case["ops"]:
         kind = op[0]
         nops += 1
@@ -147,7 +153,7 @@ def oracle(case, R):
             last += 1
             force[:, last] = f
             fabs[:, last] = np.abs(f)
-            gen.send((last, f))
+            gen.send((last, hand(f)))
             if pending_addon:
                 nontriv_addon = True
         elif kind == "redo":
@@ -172,7 +178,7 @@ def oracle(case, R):
             f = np.array(op[1], float)
             force[:, last] += f
             fabs[:, last] += np.abs(f)
-            gen.send((-1, f))
+            gen.send((-1, hand(f)))
             pending_addon = True
         elif kind == "f2x":
             velo = bool(op[1])
@@ -303,14 +309,15 @@ def histories(draw, family):
     return {"family": family, "h": h, "order": order, "mform": mform, "blocks": [list(bl) for bl in blocks],
             "nt": nt, "seed": draw(st.integers(0, 2 ** 31)), "ic": draw(st.sampled_from(["zero", "random", "static"])),
             "f0": draw(fvec), "ops": ops, "rb_given": draw(st.booleans()), "bvec": draw(st.booleans()),
+            "fpack": draw(st.sampled_from(["same", "same", "int", "readonly"])),   # (documented: 1d ndarray)
             "kvec": draw(st.booleans()), "cpl": draw(st.sampled_from([0.05, 0.3, 0.8])),
             "get_force": draw(st.booleans())}
 
 
 PARTS = [
-    Part("unc", oracle, strategy=lambda: histories("unc"), quick=(4, 100), thorough=(16, 800)),
-    Part("eig", oracle, strategy=lambda: histories("eig"), quick=(3, 100), thorough=(16, 600)),
-    Part("cdf_su", oracle, strategy=lambda: histories("cdf_su"), quick=(3, 100), thorough=(16, 600)),
-    Part("cdf", oracle, strategy=lambda: histories("cdf"), quick=(3, 100), thorough=(16, 600)),
-    Part("se2", oracle, strategy=lambda: histories("se2"), quick=(3, 100), thorough=(16, 600)),
+    Part("unc", oracle, strategy=lambda: histories("unc"), quick=(8, 120), thorough=(16, 800)),
+    Part("eig", oracle, strategy=lambda: histories("eig"), quick=(6, 100), thorough=(16, 600)),
+    Part("cdf_su", oracle, strategy=lambda: histories("cdf_su"), quick=(5, 100), thorough=(16, 600)),
+    Part("cdf", oracle, strategy=lambda: histories("cdf"), quick=(5, 100), thorough=(16, 600)),
+    Part("se2", oracle, strategy=lambda: histories("se2"), quick=(6, 100), thorough=(16, 600)),
 ]
